@@ -591,7 +591,162 @@ def build_ped_coverage(rng, d, params):
     return jobs
 
 
-BUILDERS = {"ped-coverage": build_ped_coverage, "ped-changes": build_ped_changes, "diploid": build_diploid, "polyploid": build_polyploid, "linked-stress": build_linked_stress,
+def build_split_ties(rng, d, params):
+    """split with a 4-column haplotag list over several chromosomes; on every chromosome 2-3 phase sets are
+    TIED for the largest number of tagged reads (plus smaller ones), reads of the tied phase sets have
+    different haplotypes/lengths, some reads are untagged ('none') and some reads of the BAM/FASTQ are not
+    listed at all."""
+    os.makedirs(d, exist_ok=True)
+    nchrom = params.get("nchrom", 3)
+    sc = synth.make_scenario(rng, nchrom=nchrom, nsamples=1, nvars=4, kinds=("snv",), het_fraction=1.0,
+                             chrom_names=[f"chr{x}" for x in rng.sample(["A", "B", "C", "7", "X", "10", "M"], nchrom)])
+    reads, lines = [], ["#readname\thaplotype\tphaseset\tchromosome"]
+    for c in sc.chroms:
+        ntied = rng.choice([2, 2, 3])
+        top = rng.randint(2, 5)
+        sizes = [top] * ntied + [rng.randint(1, top - 1) for _ in range(rng.randint(1, 3))] if top > 1 else [1] * ntied
+        rng.shuffle(sizes)
+        psnames = rng.sample(range(1, 900000), len(sizes))
+        total = sum(sizes) + rng.randint(2, 5) + rng.randint(1, 4)
+        rs = synth.simulate_reads(rng, sc, "S1", c, total + 6, len_range=(30, 200), name_prefix=f"q{c}_")[:total]
+        rng.shuffle(rs)
+        k = 0
+        entries = []
+        for ps, n in zip(psnames, sizes):
+            for _ in range(n):
+                entries.append((rs[k]["name"], rng.choice(["H1", "H2"]), str(ps), c))
+                k += 1
+        nnone = rng.randint(2, 5)
+        for _ in range(nnone):
+            if k < len(rs):
+                entries.append((rs[k]["name"], "none", "none", c))
+                k += 1
+        rng.shuffle(entries)            # remaining reads of rs are not listed ("unknown")
+        lines += ["\t".join(e) for e in entries]
+        reads += rs
+    bam = synth.write_bam(sc, reads, os.path.join(d, "reads.bam"))
+    lst = os.path.join(d, "haplotags.tsv")
+    with open(lst, "w") as fh:
+        fh.write("\n".join(lines) + "\n")
+    fq = os.path.join(d, "reads.fastq")
+    with open(fq, "w") as fh:
+        for r in sorted(reads, key=lambda r: rng.random()):
+            fh.write(f"@{r['name']}\n{r['seq']}\n+\n{'I' * len(r['seq'])}\n")
+    feat = dict(nsamples=1, nchrom=nchrom, tied_phase_sets=True)
+    bam_out = ["--output-h1", "{out}/h1.bam", "--output-h2", "{out}/h2.bam", "--output-untagged", "{out}/untagged.bam",
+               "--read-lengths-histogram", "{out}/hist.tsv"]
+    bam_outs = {"h1": ("h1.bam", "bam"), "h2": ("h2.bam", "bam"), "untagged": ("untagged.bam", "bam"),
+                "histogram": ("hist.tsv", "text")}
+    fq_out = ["--output-h1", "{out}/h1.fastq", "--output-h2", "{out}/h2.fastq", "--output-untagged", "{out}/untagged.fastq",
+              "--read-lengths-histogram", "{out}/hist.tsv"]
+    fq_outs = {"h1": ("h1.fastq", "text"), "h2": ("h2.fastq", "text"), "untagged": ("untagged.fastq", "text"),
+               "histogram": ("hist.tsv", "text")}
+    jobs = []
+    for name, extra in (("largest", []), ("largest-discard-unknown", ["--discard-unknown-reads"]),
+                        ("largest-add-untagged", ["--add-untagged"])):
+        jobs.append(Job(f"split-{name}", "split", ["--only-largest-block"] + extra + bam_out + [bam, lst], dict(bam_outs),
+                        feat=dict(feat, options=" ".join(["--only-largest-block"] + extra))))
+    jobs.append(Job("split-largest-fastq", "split", ["--only-largest-block"] + fq_out + [fq, lst], dict(fq_outs),
+                    feat=dict(feat, options="--only-largest-block", fastq=True)))
+    jobs.append(Job("split-all-blocks", "split", ["--discard-unknown-reads"] + bam_out + [bam, lst], dict(bam_outs),
+                    feat=dict(feat, options="--discard-unknown-reads")))
+    return jobs
+
+
+def build_block_ties(rng, d, params):
+    """Tie-rich phasing: on every chromosome several phase sets of EQUAL size (and a smaller one); reads that
+    span a phase-set boundary with the same number of variants (same total quality) on each side, alone and
+    in BX read clouds; three phasings of the same genotypes that agree on most pairs."""
+    os.makedirs(d, exist_ok=True)
+    used = set()
+    names = [_rand_name(rng, used) for _ in range(params.get("nsamples", 2))]
+    nchrom = params.get("nchrom", 2)
+    bs = params.get("block", 4)
+    nblocks = params.get("nblocks", 3)
+    nvars = bs * nblocks + 2
+    sc = synth.make_scenario(rng, nchrom=nchrom, nsamples=len(names), nvars=nvars, kinds=("snv",), het_fraction=1.0,
+                             sample_names=names, min_gap=14,
+                             chrom_names=[f"chr{x}" for x in rng.sample(["A", "B", "C", "7", "X"], nchrom)])
+
+    def equal_blocks(scx, shift=0):
+        ph = {}
+        for s in scx.samples:
+            ph[s] = {}
+            for c in scx.chroms:
+                dct = {}
+                vs = scx.variants[c]
+                n = len(vs)
+                for b in range(nblocks):
+                    idx = list(range(b * bs, min(n, (b + 1) * bs)))
+                    for i in idx:
+                        dct[i] = vs[idx[0]].pos + 1
+                for i in range(nblocks * bs, n):
+                    dct[i] = vs[nblocks * bs].pos + 1
+                ph[s][c] = dct
+        return ph
+    f = {}
+    f["ref"] = synth.write_fasta(sc, os.path.join(d, "ref.fa"))
+    ph = equal_blocks(sc)
+    f["phased"] = synth.write_vcf(sc, os.path.join(d, "phased.vcf"), phased=ph)
+    f["phased_gz"] = _tabix(f["phased"])
+    sc2, sc3 = _flip_some(rng, sc, 0.0), _flip_some(rng, sc, 0.12)
+    f["phased2"] = synth.write_vcf(sc2, os.path.join(d, "phased2.vcf"), phased=equal_blocks(sc2))
+    f["phased3"] = synth.write_vcf(sc3, os.path.join(d, "phased3.vcf"), phased=equal_blocks(sc3))
+    reads = []
+    barcodes = [f"TB{k:02d}-1" for k in range(3)]
+    for s in names:
+        for c in sc.chroms:
+            vs = sc.variants[c]
+            L = len(sc.ref[c])
+            k = 0
+            for b in range(1, nblocks + 1):
+                # a read with w variants left and w variants right of the boundary before variant b*bs
+                for w in (1, 2):
+                    for h in (0, 1):
+                        i0, i1 = b * bs - w, b * bs + w - 1
+                        if i1 >= len(vs):
+                            continue
+                        start = max(0, vs[i0].pos - 5)
+                        end = min(L - 1, vs[i1].pos + 6)
+                        seq, cig = synth.hap_walk(sc.ref[c], vs, [x[h] for x in sc.haps[s][c]], start, end)
+                        r = dict(name=f"{s}_{c}_span{k}", sample=s, chrom=c, start=start, cigar=cig, seq=seq, qual=30,
+                                 hap=h, flag=0)
+                        if rng.random() < 0.5:
+                            r["tags"] = [("BX", rng.choice(barcodes))]
+                        reads.append(r)
+                        k += 1
+            rs = synth.simulate_reads(rng, sc, s, c, 8, len_range=(50, 150))
+            for r in rs:
+                if rng.random() < 0.6:
+                    r["tags"] = [("BX", rng.choice(barcodes))]
+            reads += rs
+    f["bam"] = synth.write_bam(sc, reads, os.path.join(d, "reads.bam"))
+    feat = dict(nsamples=len(names), nchrom=nchrom, equal_blocks=True)
+    T = "text"
+    smp = names[rng.randrange(len(names))]
+    jobs = [
+        Job("stats-equal-blocks", "stats", ["--tsv", "{out}/stats.tsv", "--block-list", "{out}/blocks.tsv", "--gtf",
+                                            "{out}/blocks.gtf", "--sample", smp, f["phased"]],
+            {"tsv": ("stats.tsv", T), "block-list": ("blocks.tsv", T), "gtf": ("blocks.gtf", T)}, feat=feat),
+        Job("compare-equal-blocks", "compare", ["--sample", smp, "--tsv-pairwise", "{out}/pair.tsv", "--tsv-multiway",
+                                                "{out}/multi.tsv", "--longest-block-tsv", "{out}/longest.tsv",
+                                                "--switch-error-bed", "{out}/switch.bed", f["phased"], f["phased2"], f["phased3"]],
+            {"tsv-pairwise": ("pair.tsv", T), "tsv-multiway": ("multi.tsv", T), "longest-block-tsv": ("longest.tsv", T),
+             "switch-error-bed": ("switch.bed", T)}, feat=feat),
+        Job("haplotag-boundary-ties", "haplotag", ["--reference", f["ref"], "-o", "{out}/out.bam", "--output-haplotag-list",
+                                                    "{out}/list.tsv", f["phased_gz"], f["bam"]],
+            {"bam": ("out.bam", "bam"), "haplotag-list": ("list.tsv", T)}, dims=("output_threads",),
+            feat=dict(feat, bx=True, ps_tie=True)),
+        Job("haplotag-boundary-ties-nolinked", "haplotag", ["--reference", f["ref"], "-o", "{out}/out.bam",
+                                                             "--ignore-linked-read", "--output-haplotag-list",
+                                                             "{out}/list.tsv", f["phased_gz"], f["bam"]],
+            {"bam": ("out.bam", "bam"), "haplotag-list": ("list.tsv", T)}, dims=("output_threads",),
+            feat=dict(feat, bx=False, ps_tie=True)),
+    ]
+    return jobs
+
+
+BUILDERS = {"split-ties": build_split_ties, "block-ties": build_block_ties, "ped-coverage": build_ped_coverage, "ped-changes": build_ped_changes, "diploid": build_diploid, "polyploid": build_polyploid, "linked-stress": build_linked_stress,
             "shared-barcode": build_shared_barcode, "undeclared-info": build_undeclared_info}
 
 
